@@ -494,7 +494,11 @@ def export_specs(tier, seed):
                                    "delayed_opt", "one_worker3.fzf", "two_selections.fo", "work_opt.3")):
             out.append(("C02." + name, spec))
     for name, spec in fam.c09_cells(tier):
-        if any(k in name for k in ("nonconc.UL.initial2,lower0", "conc.LL.initial2", "chain", "conc.ULU.initial3")):
+        if any(k in name for k in ("nonconc.UL.initial2,lower0", "conc.LL.initial2", "chain", "conc.ULU.initial3",
+                                   # buffers accessed by an optional task (its instant is in the past when unscheduled),
+                                   # cancelling accesses, two buffers
+                                   "same_quantity.opt_loader", "conc.same_quantity.opt_unloader", "conc.cancel.UL",
+                                   "two.nc.pipeline")):
             out.append(("C09." + name, spec))
     for name, spec, _hi in c08.cells(tier):
         if any(k in name for k in ("Utilization.fo.H7", "ResourceCost.l21.ff", "Tardiness.all", "BufferLevels.False",
